@@ -28,3 +28,9 @@ package config
 //@   ensures conjunction: cidRef.computedRegexs != nil && cidRef.Interface == "" ==> (result <==> (cidRef.Kind == cid.Kind && (cidRef.Context == "" || cidRef.computedRegexs.contextRegex.MatchString(cid.Context)) && (cidRef.Package == "" || cidRef.computedRegexs.packageRegex.MatchString(cid.Package)) && (cidRef.Method == "" || cidRef.computedRegexs.methodRegex.MatchString(cid.Method)) && (cidRef.Receiver == "" || cidRef.computedRegexs.receiverRegex.MatchString(cid.Receiver)) && (cidRef.Field == "" || cidRef.computedRegexs.fieldRegex.MatchString(cid.Field)) && (cidRef.Type == "" || cidRef.computedRegexs.typeRegex.MatchString(cid.Type)) && (cidRef.ValueMatch == "" || cidRef.computedRegexs.valueMatchRegex.MatchString(cid.ValueMatch))))
 //@   ensures literal: cidRef.computedRegexs == nil && cidRef.Interface == "" ==> (result <==> (cidRef.Kind == cid.Kind && (cidRef.Context == "" || cidRef.Context == cid.Context) && (cidRef.Package == "" || cidRef.Package == cid.Package) && (cidRef.Method == "" || cidRef.Method == cid.Method) && (cidRef.Receiver == "" || cidRef.Receiver == cid.Receiver) && (cidRef.Field == "" || cidRef.Field == cid.Field) && (cidRef.Type == "" || cidRef.Type == cid.Type) && (cidRef.ValueMatch == "" || cidRef.ValueMatch == cid.ValueMatch)))
 //@   modifies nothing
+
+// Logging does not touch analysis state (the log.Logger writes to its io.Writer).
+//@ func LogGroup.Warnf
+//@   property C13
+//@   requires l != nil
+//@   modifies nothing
